@@ -38,6 +38,7 @@ Definition probe (tid : TestId) (kw : Kw) (rw : rows) : option (list flag) :=
   let '(p, fault) := kw in
   match fault with
   | 1%nat => None
+  | 3%nat => None
   | 2%nat => if Nat.ltb (length (rw_inp rw)) 2 then None else
              match tid with
              | 1%nat => match rw_zinp rw with None => None | Some _ => Some (probe_flags p rw) end
